@@ -120,7 +120,20 @@ func deepCastRecursive(val Value, typ ast.Type, span errors.Span, allowCasts boo
 			}
 			return NewValueOption(innerCast), nil
 		}
-		return NewValueOption(&val), nil
+
+		// A `null` (e.g. from JSON) is the empty option
+		if val.Kind() == NullValueKind {
+			return NewNoneOption(), nil
+		}
+
+		// A plain value is only a valid `?T` if it is a valid `T`
+		newUri := fieldURI.clone()
+		newUri.push(componentKindOptionInner, "", 0)
+		innerCast, i := deepCastRecursive(val, typ.(ast.OptionType).Inner, span, allowCasts, newUri)
+		if i != nil {
+			return nil, i
+		}
+		return NewValueOption(innerCast), nil
 	}
 
 	switch val.Kind() {
